@@ -42,9 +42,12 @@ type c07run struct {
 	c      *core.Ctx
 	w      *world.World
 	node   *world.Node
-	chain  *tmchain.Chain
-	name   string
-	rev    uint64
+	chain  *tmchain.Chain // the chain of the current view (after an upgrade: successor, or predecessor for one step)
+	name   string         // its chain id
+	rev    uint64         // its revision
+	client string         // the client's name on the host (fixed; the first chain id)
+	pred   *tmchain.Chain // predecessor chain (previous revision) once the client was upgraded
+	wild   bool
 	m      *model.TmLightModel
 	drift  time.Duration
 	tp     time.Duration
@@ -104,7 +107,9 @@ func runC07(c *core.Ctx, crashes bool) {
 	// ---- the virtual chain
 	r.name = c07ChainIDs[ch.Int(len(c07ChainIDs))]
 	r.rev = model.TmRevision(r.name)
+	r.client = r.name
 	wild := ch.Bool(1, 4)
+	r.wild = wild
 	div := ch.Range(20, 200)
 	r.scale = r.tp / time.Duration(div)
 	if r.scale < time.Second {
@@ -219,14 +224,31 @@ func (r *c07run) makeVisible(h int64) {
 
 func (r *c07run) th(h uint64) clienttypes.Height { return clienttypes.NewHeight(r.rev, h) }
 
+// heights lists the stored heights of the current view's revision (ascending).
+func (r *c07run) heights() []model.TmHeight {
+	var out []model.TmHeight
+	for _, h := range r.m.Heights() {
+		if h.Rev == r.rev {
+			out = append(out, h)
+		}
+	}
+	return out
+}
+
+// viewLatest is the greatest stored height of the current view's revision.
+func (r *c07run) viewLatest() model.TmHeight {
+	hs := r.heights()
+	return hs[len(hs)-1]
+}
+
 // pickTrusted draws a stored height: mostly the latest, else any usable one.
 func (r *c07run) pickTrusted(latestPermille int) model.TmHeight {
 	ch := r.c.Ch
-	hs := r.m.Heights()
+	hs := r.heights()
 	useLatest := ch.Int(1000) < latestPermille
 	i := ch.Int(len(hs))
 	if useLatest {
-		return r.m.Latest
+		return r.viewLatest()
 	}
 	now := r.predictNow()
 	var usable []model.TmHeight
@@ -477,9 +499,24 @@ func (r *c07run) oneStep() {
 	if !r.m.Usable(r.m.Latest, r.predictNow()) {
 		r.deadSteps++
 	}
-	//                  0   1   2   3   4   5   6   7   8   9  10  11  12  13
-	act := ch.Pick([]int{16, 14, 8, 12, 7, 6, 5, 4, 7, 6, 3, 6, 5, 4})
+	if r.pred != nil && ch.Bool(2, 5) {
+		// this step looks at the predecessor chain: updates (back-fills and forward ones) in the
+		// previous revision, trusted on the states of that revision the client still stores
+		succ, name, rev := r.chain, r.name, r.rev
+		r.chain, r.name, r.rev = r.pred, r.pred.Cfg.ChainID, model.TmRevision(r.pred.Cfg.ChainID)
+		w.Stats.Inc("step-in-previous-revision")
+		defer func() { r.chain, r.name, r.rev = succ, name, rev }()
+	}
+	//                  0   1   2   3   4   5   6   7   8   9  10  11  12  13 14
+	act := ch.Pick([]int{16, 14, 8, 12, 7, 6, 5, 4, 7, 6, 3, 6, 5, 4, 3})
 	switch act {
+	case 14: // governance upgrades the client to the next revision of the chain (once, not at the start)
+		if r.pred != nil || r.step*4 < r.steps {
+			t, h := r.base(300)
+			r.submitReq("skip", tmchain.HeaderReq{Height: h, TrustedHeight: r.th(t.H)})
+			return
+		}
+		r.upgrade()
 	case 0: // honest adjacent
 		t, h := r.base(1000)
 		r.submitReq("adjacent", tmchain.HeaderReq{Height: h, TrustedHeight: r.th(t.H)})
@@ -487,7 +524,7 @@ func (r *c07run) oneStep() {
 		t, h := r.base(0)
 		r.submitReq("skip", tmchain.HeaderReq{Height: h, TrustedHeight: r.th(t.H)})
 	case 2: // into the past, between two stored states
-		hs := r.m.Heights()
+		hs := r.heights()
 		i := ch.Int(len(hs))
 		off := ch.Int(1 << 20)
 		found := false
@@ -647,8 +684,8 @@ func (r *c07run) oneStep() {
 		older := ch.Bool(1, 3)
 		delta := []time.Duration{1, 999, time.Millisecond, time.Second, r.drift}[ch.Int(5)]
 		gate := r.lateInRun() || ch.Bool(1, 8)
-		t := r.m.Latest
-		hs := r.m.Heights()
+		t := r.viewLatest()
+		hs := r.heights()
 		i := ch.Int(len(hs))
 		adj := ch.Bool(2, 3)
 		span := int64(ch.Range(1, 6))
@@ -689,7 +726,7 @@ func (r *c07run) oneStep() {
 		case kind == 0 && len(r.history) > 0: // exact resubmission
 			r.submitHeader("duplicate", r.history[i%len(r.history)])
 		case kind == 1: // conflicting header for a stored height
-			hs := r.m.Heights()
+			hs := r.heights()
 			if len(hs) >= 2 {
 				k := 1 + i%(len(hs)-1)
 				a := hs[ch.Int(k)]
@@ -726,7 +763,7 @@ func (r *c07run) oneStep() {
 				r.c.Check(err)
 				u, err = model.TmExtract(hdr)
 				r.c.Check(err)
-				msg, err := clienttypes.NewMsgUpdateClient(r.name, hdr, w.Relayers[0].Addr)
+				msg, err := clienttypes.NewMsgUpdateClient(r.client, hdr, w.Relayers[0].Addr)
 				r.c.Check(err)
 				reqs = []*world.TxReq{{Signer: w.Relayers[0], Msgs: []sdk.Msg{msg}, Label: "update(crash)"}}
 			}
@@ -754,6 +791,43 @@ func (r *c07run) oneStep() {
 	}
 }
 
+// upgrade replaces the client state by one for the next revision of the chain (a fresh
+// virtual chain with its own validators and heights starting over), as a governance
+// MsgUpgradeClient does; trusted states of the old revision stay in the store.
+func (r *c07run) upgrade() {
+	ch := r.c.Ch
+	w := r.w
+	old, found := r.node.ClientState(r.client)
+	if !found {
+		return
+	}
+	ocs := old.(*tmclient.ClientState)
+	newID := c07WithRev(r.name, r.rev+1)
+	start := r.predictNow().Add(-time.Duration(ch.Int(int(r.scale/time.Millisecond)+1)) * time.Millisecond)
+	succ := tmchain.New(tmchain.Config{
+		ChainID: newID, Seed: ch.Uint64(), MaxHeight: 200, Start: start,
+		GapScale: r.scale, WildGaps: r.wild, MaxVals: 7, ChangePct: []int{8, 20, 45}[ch.Int(3)],
+	})
+	h0 := int64(ch.Range(1, 3))
+	b0 := succ.Block(h0)
+	cs := tmclient.NewClientState(newID, ocs.TrustLevel, ocs.TrustingPeriod, ocs.UnbondingPeriod, ocs.MaxClockDrift,
+		clienttypes.NewHeight(r.rev+1, uint64(h0)), commitmenttypes.GetSDKSpecs(), world.TibcPrefix, 0)
+	r.c.Check(cs.Validate())
+	cons, err := succ.ConsensusState(h0)
+	r.c.Check(err)
+	ctx := r.node.SetupCtx().WithBlockTime(w.TimeOn(r.node))
+	r.c.Check(r.node.App.TIBCKeeper.ClientKeeper.UpgradeClient(ctx, r.client, cs, cons))
+	_, err = w.Block(r.node, nil, world.NoCrash)
+	r.c.Check(err)
+	nh := model.TmHeight{Rev: r.rev + 1, H: uint64(h0)}
+	r.m.Upgrade(newID, nh, model.TmCons{Time: b0.Time, AppHash: b0.AppHash, NextValsHash: b0.NextVals.Hash()})
+	r.pred, r.chain, r.name, r.rev = r.chain, succ, newID, r.rev+1
+	w.Stats.Inc("client-upgraded-to-next-revision")
+	w.Log.Add("c07 client %s upgraded to chain id %s at %s", r.client, newID, nh)
+	r.c.Op("upgrade")
+	r.checkLatest("after upgrade")
+}
+
 // c07WithRev returns chain id `id` carrying revision number rev.
 func c07WithRev(id string, rev uint64) string {
 	if model.TmRevision(id) != 0 {
@@ -777,9 +851,9 @@ func (r *c07run) submitReq(tag string, req tmchain.HeaderReq) bool {
 }
 
 func (r *c07run) realLatest() model.TmHeight {
-	cs, ok := r.node.ClientState(r.name)
+	cs, ok := r.node.ClientState(r.client)
 	if !ok {
-		r.c.Violate("C07/client-vanished", "client %s no longer exists on %s", r.name, r.node.Name)
+		r.c.Violate("C07/client-vanished", "client %s no longer exists on %s", r.client, r.node.Name)
 		return model.TmHeight{}
 	}
 	h := cs.GetLatestHeight()
@@ -801,7 +875,7 @@ func (r *c07run) submitHeader(tag string, hdr *tmclient.Header) bool {
 	w := r.w
 	u, err := model.TmExtract(hdr)
 	r.c.Check(err)
-	msg, err := clienttypes.NewMsgUpdateClient(r.name, hdr, w.Relayers[0].Addr)
+	msg, err := clienttypes.NewMsgUpdateClient(r.client, hdr, w.Relayers[0].Addr)
 	r.c.Check(err)
 	before := r.node.DumpMap("tibc")
 	res, err := w.One(r.node, &world.TxReq{Signer: w.Relayers[0], Msgs: []sdk.Msg{msg}, Label: "update(" + tag + ")"})
@@ -862,7 +936,7 @@ func (r *c07run) judge(tag string, hdr *tmclient.Header, u *model.TmUpdate, res 
 		shape += "-into-past"
 	}
 	desc := fmt.Sprintf("update(%s) of client %s: header %s chain-id %q time %s, trusted height %s, submitted at host time %s (trust level %d/%d, trusting period %v, drift %v); own signed %v of %v, trusted signed %v of %v",
-		tag, r.name, u.Height, u.ChainID, u.Time.UTC().Format(time.RFC3339Nano), u.TrustedHeight, now.UTC().Format(time.RFC3339Nano),
+		tag, r.client, u.Height, u.ChainID, u.Time.UTC().Format(time.RFC3339Nano), u.TrustedHeight, now.UTC().Format(time.RFC3339Nano),
 		r.m.P.TrustNum, r.m.P.TrustDen, r.tp, r.drift, v.OwnSigned, v.OwnTotal, v.TrustSigned, v.TrustTotal)
 
 	// ---- verdict equality
@@ -877,7 +951,7 @@ func (r *c07run) judge(tag string, hdr *tmclient.Header, u *model.TmUpdate, res 
 	if accepted {
 		r.nAcc++
 		// ---- state after acceptance
-		cons, ok := r.node.ConsensusState(r.name, clienttypes.NewHeight(u.Height.Rev, u.Height.H))
+		cons, ok := r.node.ConsensusState(r.client, clienttypes.NewHeight(u.Height.Rev, u.Height.H))
 		want := u.Cons()
 		var got model.TmCons
 		if ok {
@@ -921,6 +995,12 @@ func (r *c07run) judge(tag string, hdr *tmclient.Header, u *model.TmUpdate, res 
 		}
 		if u.Height.Less(prevLatest) && !v.HeightStored {
 			w.Stats.Inc("probe-update-into-past")
+		}
+		if u.Height.Rev < prevLatest.Rev {
+			w.Stats.Inc("probe-accepted-update-in-previous-revision")
+			if u.Height.H > prevLatest.H {
+				w.Stats.Inc("probe-previous-revision-update-with-greater-height-number")
+			}
 		}
 		if !v.Adjacent && !bytes.Equal(u.TrustedHash, u.OwnHash) {
 			w.Stats.Inc("probe-skipping-valset-change")
